@@ -9,7 +9,7 @@ BIN = {  # operator -> precedence
 }
 ARITH = ["||", "&&", "|", "^", "&", "==", "!=", "===", "!==", "<", "<=", ">", ">=", "<<", ">>", ">>>", "+", "-", "*", "/", "%", "**"]
 UNARY = ["-", "+", "!", "~", "typeof", "void"]
-ASSIGN = ["=", "+=", "-=", "*=", "/=", "%=", "&=", "|=", "^=", "<<=", ">>=", ">>>="]
+ASSIGN = ["=", "+=", "-=", "*=", "/=", "%=", "&=", "|=", "^=", "<<=", ">>=", ">>>=", "**="]
 P_COMMA, P_ASSIGN, P_COND, P_UNARY, P_POSTFIX, P_CALL, P_PRIMARY = 1, 2, 3, 15, 16, 17, 20
 
 PRELUDE = ("var a = 7, b = 3, c = 2, d = 5, e = 11; var o = {p: 4, q: {r: 6}, m: function (x) { return x + 100; }}; "
